@@ -14,6 +14,8 @@ CONSTANTS
   IgnoreNegation = FALSE
   PipeFirst = FALSE
   FormatInKeyOrder = FALSE
+  SplitLimit = 0
+  LimitedSplits = {}
   KeyOrders <- AllKeyOrders
 SPECIFICATION Spec
 INVARIANT TypeOK
